@@ -43,3 +43,18 @@ def run_replay(rep, did, fixed=True, cxx="g++", flags=""):
             rep.fail(kind="repaired-defect-is-back", replay=f"corpus/replays/{did}.cpp", compiler=cxx, output=(r["run_out"] or r["compile_out"])[-800:])
         return ok
     return not ok     # known finding: True when it still reproduces
+
+def must_not_compile(rep, fname, cxx="g++"):
+    """a program the library must refuse at compile time (malformed pattern, undeclared symbol in a constexpr parser)"""
+    src = f"{VERIF}/harness/fixed/must_not_compile/{fname}"
+    key = sha(HEADER, src, cxx)
+    d = f"{CACHE}/fixed/mnc-{fname[:-4]}-{key}"
+    if not os.path.exists(d + "/done"):
+        os.makedirs(d, exist_ok=True)
+        rc, out, _ = sh(f"{cxx} -std=c++17 -I{REPO}/include -fsyntax-only {src}", timeout=900)
+        json.dump({"rc": rc, "out": out[-1500:]}, open(d + "/res.json", "w")); open(d + "/done", "w").write("ok")
+    r = json.load(open(d + "/res.json"))
+    rep.cov["evaluations"] += 1
+    if r["rc"] == 0:
+        rep.fail(kind="malformed-pattern-or-grammar-accepted-at-compile-time", program="harness/fixed/must_not_compile/" + fname, compiler=cxx); return False
+    return True
